@@ -242,6 +242,29 @@ func c10(c *Ctx) {
 			}
 		}
 	}
+	// combine: a variable that cannot be read ends the patch in that very
+	// iteration — the next variable is read only over ok(GetValue)
+	if fn := c.fn(pkgComposite, "ApplyCombineFromVariablesPatch"); fn != nil {
+		gs := cfgx.Calls(fn, func(ci ssa.CallInstruction) bool { return strings.HasSuffix(cfgx.CalleeName(ci), "fieldpath.Paved).GetValue") })
+		if len(gs) == 0 {
+			c.R.Unknown(load.FuncName(fn)+": variable reads", c.pos(fn.Pos()), "no GetValue call found")
+		}
+		for _, g := range gs {
+			loop := cfgx.LoopOf(g.Block())
+			if loop == nil {
+				c.R.Bad(site(g)+" per-variable", c.pos(g.Pos()), "the variable read is not inside the loop over the variables")
+				continue
+			}
+			h := cfgx.LoopHeader(loop)
+			seen, par := cfgx.ReachBlocks([]*ssa.BasicBlock{g.Block()}, edgeSet(okEdges(g)))
+			_ = par
+			c.R.Check(!seen[h] && len(okEdges(g)) > 0, site(g)+" failed-read-ends-patch", c.pos(g.Pos()), "the next variable is read only after this read succeeded", "after a failed variable read the loop continues (the error is tested later or overwritten): a required variable that is missing is silently rendered")
+			for _, w := range calls(fn, xp+pkgComposite+".patchFieldValueToObject", xp+pkgComposite+".patchFieldValueToMultiple") {
+				r, _ := cfgx.ReachableFromEdges(cfgx.ErrEvents(g).Fail, w, nil, nil)
+				c.R.Check(!r, site(w)+" not-after-failed-read", c.pos(w.Pos()), "no write after a failed variable read", "a write is reachable after a variable read failed")
+			}
+		}
+	}
 	if io := c.fn(pkgComposite, "IsOptionalFieldPathNotFound"); io != nil {
 		var allow []cfgx.Edge
 		for _, b := range io.Blocks {
@@ -406,6 +429,50 @@ func c10(c *Ctx) {
 					}
 				}
 				c.R.Check(inIter == 0, site(cs[0])+" failure-continues", c.pos(cs[0].Pos()), "a failure is recorded and the remaining templates are still rendered", "a render failure of one resource aborts composition of the others")
+			}
+			// "the other resources still are": whether a template's object is stored
+			// is decided by this iteration alone — no boolean carried around the
+			// templates loop feeds a branch that leads to the store.
+			if tl := cfgx.LoopOf(store.Block()); tl != nil {
+				hd := cfgx.LoopHeader(tl)
+				carried := func(v ssa.Value) bool {
+					seen := map[ssa.Value]bool{}
+					var walk func(v ssa.Value) bool
+					walk = func(v ssa.Value) bool {
+						if seen[v] {
+							return false
+						}
+						seen[v] = true
+						switch x := v.(type) {
+						case *ssa.Phi:
+							if x.Block() == hd {
+								return true
+							}
+							for _, e := range x.Edges {
+								if walk(e) {
+									return true
+								}
+							}
+						case *ssa.UnOp:
+							if x.Op == token.NOT {
+								return walk(x.X)
+							}
+						}
+						return false
+					}
+					return walk(v)
+				}
+				bad := ""
+				for b := range tl {
+					if iff, ok := b.Instrs[len(b.Instrs)-1].(*ssa.If); ok && carried(iff.Cond) {
+						if seenB, _ := cfgx.ReachBlocks([]*ssa.BasicBlock{b}, edgeSet(cfgx.BackEdges(pt))); seenB[store.Block()] {
+							bad = c.pos(iff.Pos())
+						}
+					}
+				}
+				c.R.Check(bad == "", load.FuncName(pt)+": cds[i]=r decided per template", c.pos(store.Pos()), "no loop-carried flag decides whether a template's object is stored", "a boolean carried over from earlier templates (branch at "+bad+") decides whether this template's object is stored: one failed template blocks the later ones")
+			} else {
+				c.R.Bad(load.FuncName(pt)+": cds[i]=r decided per template", c.pos(store.Pos()), "the store is not inside the templates loop")
 			}
 			// apply loop skips nil slots
 			s := findComposerSites(pt)
